@@ -869,10 +869,17 @@ pub(crate) fn ordinary_set(
         let obj_is_receiver = JsObject::equals(obj, &receiver);
 
         // NOTE(HaledOdat): If the object and receiver are not the same then it's not inline cacheable for now.
-        context
+        //
+        // The same holds if the lookup did not start at `obj` (`super.x = v`), because then the
+        // cached store would be applied to the object where the lookup started.
+        let found_in_prototype = context
             .slot()
             .attributes
-            .set(SlotAttributes::NOT_CACHEABLE, !obj_is_receiver);
+            .contains(SlotAttributes::PROTOTYPE);
+        context.slot().attributes.set(
+            SlotAttributes::NOT_CACHEABLE,
+            !obj_is_receiver || found_in_prototype,
+        );
 
         // OPTIMIZATION: If obj and receiver are the same, there's no need to call [[GetOwnProperty]](P)
         //              again because it was already performed above.
